@@ -19,7 +19,7 @@
     64-byte transfer unit and a sender the completion can be returned to; and
     no third party talks on the network.  Port names are arbitrary but distinct
     where akita requires it. *)
-From VMem Require Import Pmc PmcLemmas PmcProofs PmcExamples.
+From VMem Require Import Pmc PmcLemmas PmcProofs PmcLive PmcExamples.
 From VDrv Require Import Migration MigrationProofs.
 Open Scope N_scope.
 
@@ -107,6 +107,57 @@ Proof.
   exact (requests_queue ra ca la ma rb cb lb mb sa0 sb0 Hra Hrb Hrab Hma Hmb evs Hok).
 Qed.
 Print Assumptions pmc_requests_queue.
+
+(** Liveness.  [mu] is a ranking function (PmcLive.v): the remaining pipeline
+    stages of every chunk in flight, 22 per chunk of every request not yet
+    started, plus the bookkeeping steps of each request.  No environment event
+    raises it and every event that changes the state lowers it; when none of
+    the twelve canonical actions [round12] (tick A, tick B, take the head of
+    each remote/local out buffer, deliver the oldest network message, serve the
+    oldest request of each memory, deliver the oldest reply of each memory,
+    take the head of A's control out buffer) changes the state, the rank is 0.
+    A schedule is [fair k] if it starts with k consecutive segments in each of
+    which every canonical action occurs at least once - in any order, with
+    anything else (ticks, out-of-order deliveries, refusals) in between.
+    From ANY reachable state whose accepted requests have at least one chunk
+    (PageSize >= 64; see small_page_hangs for why), every schedule without new
+    requests that is fair for [mu] rounds ends with every accepted request
+    completed, exactly one completion per request taken by the command
+    processor in request order, the controller idle and its control port empty. *)
+Theorem pmc_liveness : forall ra ca la ma rb cb lb mb sa0 sb0,
+  names_ok ra la ma rb lb mb ->
+  forall evs0 evs,
+  Forall (ok_ev ca rb) evs0 ->
+  Forall quiet evs ->
+  let s0 := run (s_init ra ca la ma rb cb lb mb sa0 sb0) evs0 in
+  Forall (fun r => 64 <= mg_size r) (g_acc s0) ->
+  fair (mu s0) evs ->
+  let s := run s0 evs in
+  g_acc s = g_acc s0 /\
+  g_done s = map (fun r => MMigRsp (mkMigRsp ca (mg_src r))) (g_acc s) /\
+  completed s = g_acc s /\ cur_mig (pa s) = None /\ ctl_in (pa s) = [] /\ ctl_out (pa s) = [].
+Proof. exact liveness. Qed.
+Print Assumptions pmc_liveness.
+
+(** the rank never grows, and a state-changing event lowers it (any event but a new request) *)
+Theorem pmc_rank_decreases : forall ra ca la ma rb cb lb mb sa0 sb0,
+  names_ok ra la ma rb lb mb ->
+  forall evs0 e, Forall (ok_ev ca rb) evs0 -> quiet e ->
+  let s := run (s_init ra ca la ma rb cb lb mb sa0 sb0) evs0 in
+  fst (step s e) = s \/ (mu (fst (step s e)) < mu s)%nat.
+Proof.
+  intros ra ca la ma rb cb lb mb sa0 sb0 (Hra & Hrb & Hrab & Hma & Hmb) evs0 e Hok Hq s.
+  apply (step_dich ra ca la ma rb cb lb mb sa0 sb0 Hra Hrb Hrab Hma Hmb); auto.
+  apply (run_inv ra ca la ma rb cb lb mb sa0 sb0 Hra Hrb Hrab Hma Hmb); auto.
+  apply (init_inv2 ra ca la ma rb cb lb mb sa0 sb0); auto.
+Qed.
+Print Assumptions pmc_rank_decreases.
+
+(** non-vacuity of the fairness premise: repeating the demo round is fair, and
+    the rank after accepting one 128-byte request is 49 *)
+Example fair_is_satisfiable : fair 49 (repeat_ev 49 demo_round) /\
+  mu (run (std_sys (gen_store 3 1) (gen_store 5 2)) [ECtrlReq PA (mkMigReq CP_A CA 1024 2048 RB 128)]) = 49%nat.
+Proof. split; [apply repeat_fair|exact demo_rank]. Qed.
 
 (** ** Observations about the code, outside the property's premises *)
 
